@@ -260,8 +260,6 @@ Proof.
 Qed.
 
 (* stores whose cells only mention existing locations *)
-Definition cell_locs (c : cell) : list nat :=
-  match c with CArr _ _ => [] | CDict kvs => map snd kvs | CList l => l | CRec l => l end.
 Definition closed (s : store) : Prop := forall l c, nth_error s l = Some c -> Forall (fun x => x < length s) (cell_locs c).
 
 Definition R_id (n : nat) (a b : nat) : Prop := a = b /\ a < n.
@@ -419,3 +417,25 @@ Definition source_key_depth (a : C10_alg) : nat :=
 
 Lemma next_key_is_source_depth a k : is_agg a = true -> next_key a k = Nat.iter (source_key_depth a) split0 k.
 Proof. destruct a; cbn; try discriminate; reflexivity. Qed.
+
+
+(* the boolean asserted on every generated store implies the hypothesis of `repeatable` *)
+Lemma closedb_closed s : closedb s = true -> closed s.
+Proof.
+  unfold closedb, closed. intros H l c N. rewrite forallb_forall in H.
+  specialize (H c (nth_error_In _ _ N)). apply Forall_forall. intros x Hx. rewrite forallb_forall in H.
+  apply Nat.ltb_lt. apply H. exact Hx.
+Qed.
+
+(* every object the call binds to an own register -- the new state, the diagnostics, the aggregate -- is a NEW
+   location: it cannot be (alias) anything the caller passed in *)
+Lemma new_objects_are_fresh a W K rd s st_loc cl_loc σ' :
+  exec (script_of a W K rd) (mkSt s [(st_r, st_loc); (cl_r, cl_loc)]) = Some σ' ->
+  forall k l, lookup (ven σ') (ROwn k) = Some l -> length s <= l.
+Proof.
+  intros E k l L.
+  destruct (exec_protects (fun x => x < length s) _ _ _ (wf_script_of a W K rd) E) as (_ & OA & _).
+  - intros x H; exact H.
+  - cbn. intros k0 l0 H. discriminate.
+  - specialize (OA _ _ L). cbn in OA. lia.
+Qed.
